@@ -2,7 +2,7 @@
    Only statements, `exact`, and Print Assumptions.
    Model: Model/Url.v (net/url escaping, parseRequestURL), Model/H1Req.v (request writers). *)
 From ReqV Require Import Lib.Bytes Model.Url Model.HeaderCollect Model.BodyFraming Model.H1Req.
-From ReqV Require Import Proofs.UrlProofs Proofs.BodyFramingProofs Proofs.H1ReqProofs Proofs.H1EndToEnd.
+From ReqV Require Import Proofs.UrlProofs Proofs.BodyFramingProofs Proofs.H1ReqProofs Proofs.H1EndToEnd Proofs.CrossProto.
 From Coq Require Import Permutation.
 
 (* --- values are data: escaping is invertible and leaves no byte with a meaning in a URL --- *)
@@ -236,6 +236,40 @@ Theorem C01_cross_protocol_h2_h3 : forall q,
   h3_lines q = h2_lines q.
 Proof. exact cross_protocol_h2_h3. Qed.
 Print Assumptions C01_cross_protocol_h2_h3.
+
+(* --- the caller's own fields (every name no writer treats specially: not connection-specific, not
+   written by the transport itself, not User-Agent / Cookie / Trailer) reach the wire identically on
+   HTTP/1.1, HTTP/2 and HTTP/3: names up to case, values without surrounding blanks, multiplicity
+   and order, for every header map that passed validateHeaders --- *)
+Theorem C01_cross_protocol_h1_h2 : forall h, valid_headers h = true ->
+  caller_fields_h1 h = caller_fields_h23 h2_entry h.
+Proof. exact cross_protocol_h1_h2. Qed.
+Print Assumptions C01_cross_protocol_h1_h2.
+
+Theorem C01_cross_protocol_h1_h3 : forall h, valid_headers h = true ->
+  caller_fields_h1 h = caller_fields_h23 h3_entry h.
+Proof. exact cross_protocol_h1_h3. Qed.
+Print Assumptions C01_cross_protocol_h1_h3.
+
+(* --- cookies: the header Request.AddCookie accumulates is the caller-written value (if any)
+   followed by one pair per cookie; HTTP/2's crumb splitting yields exactly one crumb per cookie, and
+   re-joined with "; " the crumbs are the header HTTP/1.1 and HTTP/3 carry --- *)
+Theorem C01_add_cookies_header : forall cks h, cks <> [] ->
+  header_get (fold_left add_cookie cks h) (bs "Cookie") = cookie_header (header_get h (bs "Cookie")) cks.
+Proof. exact add_cookies_header. Qed.
+Print Assumptions C01_add_cookies_header.
+
+Theorem C01_cookie_crumbs_are_the_list : forall cks, forallb valid_cookie cks = true ->
+  crumbs (cookie_header [] cks) = map cookie_pair cks /\
+  join_with (bs "; ") (crumbs (cookie_header [] cks)) = cookie_header [] cks.
+Proof. exact cookie_crumbs_are_the_list. Qed.
+Print Assumptions C01_cookie_crumbs_are_the_list.
+
+Theorem C01_cookie_crumbs_with_caller_header : forall cur cks, cur <> [] -> cks <> [] ->
+  forallb valid_cookie cks = true ->
+  crumbs (cookie_header cur cks) = crumbs (cur ++ [semi]) ++ map cookie_pair cks.
+Proof. exact cookie_crumbs_with_caller_header. Qed.
+Print Assumptions C01_cookie_crumbs_with_caller_header.
 
 (* non-vacuity: a template with two holes, overlapping client/request keys and hostile values *)
 Example C01_nonvacuous :
